@@ -42,6 +42,14 @@ NOTES = {
  "C18-4": "round 2; NOT reported: StartOfDay computed by subtracting the wall-clock time since midnight (wrong across a DST transition) - value level", "C18-5": "round 2", "C18-6": "round 2; first missed; HOMONYM-WRAPPER added",
  "C19-4": "round 2; first missed; CTX-VALUE-AGREEMENT added", "C19-5": "round 2; first missed; NO-GLOBAL-STATE added", "C19-6": "round 2; first missed; COUNT-ONCE forbids branching on the destination's state",
  "C16-4": "round 2; first missed; TIMER-DEQUEUE-COUPLED one-per-timer clause added", "C16-5": "round 2; first missed by C16; CONSUME-FLAG added to C16", "C16-6": "round 2; first missed; STATE-LEVEL treats running timers as stateful objects",
+ "C09-7": "round 3; first missed; TERMINAL-CTX-CAPTURED added", "C09-8": "round 3; first missed; SLOT-CTX-STABLE added", "C09-9": "round 3; first missed; CTX-TUPLE-WHOLE added",
+ "C03-7": "round 3", "C03-8": "round 3; first missed; DOWNSTREAM-LINK added", "C03-9": "round 3; first missed; I/O plugins armed for the core properties (which found and repaired HTTPRequest's re-subscription defect) and CANCEL-OBSERVED added; patch re-based on that repair",
+ "C11-7": "round 3; first missed; RESET-RELEASES/reset-decided-by-config added", "C11-8": "round 3; first missed; REFCOUNT-PAIRING/decrement-on-every-return added", "C11-9": "round 3; first missed; SUBJECT-DELIVERS/replay-register-atomic added, SUBJECT-DELIVERS joined C11",
+ "C06-7": "round 3", "C06-8": "round 3", "C06-9": "round 3; NOT reported: plugins/websocket/client is not loaded (its gorilla/websocket requirement only resolves in the full workspace with the example modules, which need modules that are not cached) and websocketSubject is a hand-written Observable outside the subscribe-closure model",
+ "C07-7": "round 3; first missed by C07; NO-EMIT-UNDER-TEARDOWN-LOCK joined C07 (the property names locks left held)", "C07-8": "round 3; first missed by C07; SHARE-REPLAY-CONFIG joined C07", "C07-9": "round 3; first missed; TERMINAL-RELEASE-AGREEMENT added",
+ "C10-7": "round 3", "C10-8": "round 3; NOT reported: replay buffer guard `!= Unlimited` rewritten as `> 0` (size 0 becomes unlimited) - a boundary value of a configuration parameter, not decided", "C10-9": "round 3",
+ "C01-7": "round 3", "C01-8": "round 3", "C01-9": "round 3; first missed by C01 (reported by C13); CONSISTENT-PROTECTION/types joined C01",
+ "C02-7": "round 3", "C02-8": "round 3", "C02-9": "round 3",
  "C20-4": "round 2", "C20-5": "round 2", "C20-6": "round 2; NOT reported: core Interval re-armed on absolute deadlines, so ticks missed by a slow observer are emitted back to back (a burst of windows for the native limiter) - timing / quota, not decided",
  "C16-1": "first missed; WATCHDOG-REARM added", "C16-2": "first missed; STATE-LEVEL added to C16 (the counter of a periodic source is per-subscription state)",
  "C20-2": "first missed by C20 (reported by C12): a change to core GroupBy; C20 now re-checks the core premises of the native limiter", "C20-3": "first missed by C20 (reported by C10/C02): a change to the core unicast subject; C20 now re-checks the core premises of the native limiter",
